@@ -17,6 +17,12 @@ Theorem C14_attr_roundtrip : forall m b,
   wf_amap m = true -> attr_encode m = Ok b -> attr_decode b = Ok (norm m).
 Proof. exact attr_roundtrip. Qed.
 
+(* the same with sortedness as a BTreeMap hands it out: consecutive names strictly increasing *)
+Theorem C14_attr_roundtrip_adj : forall m b,
+  len32 m = true -> amap_adj_sorted m = true -> forallb wf_entry m = true ->
+  attr_encode m = Ok b -> attr_decode b = Ok (norm m).
+Proof. exact attr_roundtrip_adj. Qed.
+
 (* each supported value by itself, followed by arbitrary bytes: the reader consumes exactly the value's bytes *)
 Theorem C14_value_roundtrip : forall v id body,
   wf_value v = true -> from_variant_type (vtype v) = Some id -> write_value v = Ok body ->
